@@ -61,6 +61,15 @@ def evaluate(case):
     if got != exp:
         fails.append("parse_nvra(%r) = %s, expected %s" % (s, got, exp))
         return fails
+    try:
+        twice = C.parse_nvra(s)
+    except Exception as exc:
+        return ["parse_nvra(%r) raised %s when called a second time" % (s, exc)]
+    if twice != exp or twice is got:
+        fails.append("parse_nvra(%r) called a second time returns %s%s" % (s, twice, " (the same dict object)" if twice is got else ""))
+    got["name"] = "<caller edits the returned dict>"
+    if C.parse_nvra(s) != exp:
+        fails.append("parse_nvra(%r) is affected by the caller editing an earlier result" % s)
     canon = "%s-%d:%s-%s.%s" % (name, epoch, version, release, arch)
     try:
         again = C.parse_nvra(canon)
